@@ -22,11 +22,11 @@ func init() {
 			"difference-bound zone domain (internal/absint/zone.go) used to decide comparisons of k1,k2,0 with offsets",
 		},
 		Assume: []string{
-			"the order, involution and increment clauses are decided for mate distances |k| <= 126; at |k| = 127 IncrementMateDistance saturates (so Inc is no longer injective there) - that nothing wraps around at or beyond the ends is decided by R09-range",
+			"the order, involution and increment clauses are decided region-wise for mate distances |k| <= 126; that nothing wraps around at or beyond the ends is decided by R09-range; the two neighbour pairs at the ends (M127/M126, M-126/M-127), where a saturating increment collapses the order, are decided as constants by R09-incr and listed as known finding F33",
 			"Pawns values are not NaN",
 			"scores are built by the package constructors (fields not used by a score type are zero); MateInX(0) is not a constructible score",
 		},
-		NotDecided: []string{"behaviour for hand-built Score literals with stray fields (R09-range decides that no repo code outside the constructor writes the mate distance), NaN pawns; order preservation under IncrementMateDistance between |k| = 126 and the saturated |k| = 127"},
+		NotDecided: []string{"behaviour for hand-built Score literals with stray fields (R09-range decides that no repo code outside the constructor writes the mate distance), NaN pawns"},
 	})
 }
 
@@ -207,7 +207,7 @@ func runC09(c *Ctx) {
 	r := c.R
 	r.Rule("R09-order", "Score.Less, evaluated by conditional constant propagation in every region of the pair space (kinds x sign of mate x relative order of parameters), returns exactly rank(a) < rank(b) for the order the property states", 31)
 	r.Rule("R09-negate", "Negate maps Lost<->Won, Heur(p)->Heur(-p), Mate(k)->Mate(-k), is an involution, and Less(a,b) == Less(Negate b, Negate a) in every region", 5+5+31)
-	r.Rule("R09-incr", "IncrementMateDistance maps Won->Mate(+1), Lost->Mate(-1), Mate(k)->Mate(k away from 0 by 1), Heur unchanged; Less(Inc a, Inc b) == Less(a,b) in every region; MateDistance = |k| / 0 / none", 5+31+5)
+	r.Rule("R09-incr", "IncrementMateDistance maps Won->Mate(+1), Lost->Mate(-1), Mate(k)->Mate(k away from 0 by 1), Heur unchanged; Less(Inc a, Inc b) == Less(a,b) in every region and for the two neighbour pairs at the ends of the int8 range; MateDistance = |k| / 0 / none", 5+31+5+2)
 	r.Rule("R09-maxmin", "Max/Min return the argument selected by the spec order in every region", 62)
 	r.Rule("R09-decr", "DecrementMateDistance is the inverse of IncrementMateDistance: Dec(Inc(x)) = x for every score, Inc(Dec(x)) = x for heuristic and mate scores (it translates window bounds into a child's frame, see R03-window)", 10)
 	r.Rule("R09-range", "the mate distance never wraps around: the constructor maps every int8 into the symmetric range [-127,127], nothing else writes the field, and Negate / IncrementMateDistance / DecrementMateDistance / MateDistance map that range into itself on every path (saturating at the ends)", 6)
@@ -537,6 +537,37 @@ func c09Run(c *Ctx) {
 			continue
 		}
 		r.Check(l1 == l2, "R09-incr", cons, where(inc), reg.String(), fmt.Sprintf("Less(a,b)=%v but Less(Inc a,Inc b)=%v", l1, l2))
+	}
+	// ... and at the ends of the representable range, which the regions above exclude (|k| <= 126): the two
+	// pairs of neighbours one of which is at the limit. A saturating (or wrapping) increment cannot keep them apart.
+	for _, bp := range []struct {
+		name string
+		a, b int64
+	}{{"a=M127 b=M126", 127, 126}, {"a=M-126 b=M-127", -126, -127}} {
+		mkC := func(k int64) absint.Value {
+			sv := e.mk(skMatePos, 1).(*absint.Struct)
+			sv.F[1] = absint.MkInt(k, e.mateT)
+			return sv
+		}
+		st, a, b := absint.NewState(), mkC(bp.a), mkC(bp.b)
+		cons := "Less(Inc a,Inc b)==Less(a,b)|end of the int8 range, " + bp.name
+		l1, why := e.evalBool(less, st, a, b)
+		ia, st1, why1 := e.evalOne(inc, st, a)
+		if why != "" || why1 != "" {
+			r.Undecided("R09-incr", cons, where(inc), bp.name, why+why1)
+			continue
+		}
+		ib, st2, why2 := e.evalOne(inc, st1, b)
+		if why2 != "" {
+			r.Undecided("R09-incr", cons, where(inc), bp.name, why2)
+			continue
+		}
+		l2, why3 := e.evalBool(less, st2, ia, ib)
+		if why3 != "" {
+			r.Undecided("R09-incr", cons, where(less), bp.name, why3)
+			continue
+		}
+		r.Check(l1 == l2, "R09-incr", cons, where(inc), bp.name, fmt.Sprintf("Less(a,b)=%v but Less(Inc a,Inc b)=%v: Inc a = %s, Inc b = %s", l1, l2, vstrOf(ia), vstrOf(ib)))
 	}
 
 	// R09-maxmin
